@@ -683,6 +683,7 @@ impl Handler {
                 node = %request_call.contact(),
                 "Authentication response already sent. Dropping session.",
             );
+            self.remove_expected_response(request_call.contact().socket_addr());
             self.fail_request(request_call, RequestError::InvalidRemotePacket, true)
                 .await;
             return;
@@ -710,6 +711,7 @@ impl Handler {
             Ok(v) => v,
             Err(e) => {
                 error!(error = ?e, "Could not generate a session");
+                self.remove_expected_response(request_call.contact().socket_addr());
                 self.fail_request(request_call, RequestError::InvalidRemotePacket, true)
                     .await;
                 return;
@@ -922,6 +924,8 @@ impl Handler {
                         error = ?e,
                         "Invalid Authentication header. Dropping session",
                     );
+                    // The challenge has been consumed, we no longer expect a response to it.
+                    self.remove_expected_response(node_address.socket_addr);
                     self.fail_session(&node_address, RequestError::InvalidRemotePacket, true)
                         .await;
                 }
